@@ -115,6 +115,7 @@ pub fn write_config(cfg: &Value, dir: &Path) -> Result<PathBuf, String> {
     let group_by = s(cfg, "group_by").unwrap_or("month".into());
     let ts_style = s(cfg, "ts_style").unwrap_or("full".into());
     let equity_account = s(cfg, "equity_account").unwrap_or("Equity:Balance".into());
+    let export_targets = toml_list(&strs(cfg, "export_targets").unwrap_or_default());
     let price = match cfg.get("price") {
         Some(p) if !p.is_null() => {
             let db = p.get("db").and_then(|x| x.as_str()).unwrap_or("");
@@ -138,7 +139,7 @@ pub fn write_config(cfg: &Value, dir: &Path) -> Result<PathBuf, String> {
          balance = {{ title = \"BALANCE\"{bal_sel} }}\n\
          balance-group = {{ title = \"BALANCE GROUP\", group-by = {group_by}{balgrp_sel} }}\n\
          register = {{ title = \"REGISTER\", timestamp-style = {ts_style}{reg_sel} }}\n\
-         [export]\ntargets = [ ]\nequity = {{ equity-account = {equity_account}{eq_sel} }}\n",
+         [export]\ntargets = {export_targets}\nequity = {{ equity-account = {equity_account}{eq_sel} }}\n",
         hash = toml_str(&hash),
         report_tz = toml_str(&report_tz),
         group_by = toml_str(&group_by),
@@ -249,6 +250,7 @@ pub fn outputs(case: &Value, settings: &mut Settings, set: &TxnSet<'_>) -> Value
                 let r = RegisterReporter { report_settings: RegisterSettings::try_from(&*settings)? };
                 r.write_txt_report(settings, w, set)
             }),
+            "probe" => guarded(|| Ok(crate::ops::strict::probe(case, settings))),
             _ => json!({"r": "BADCASE", "msg": format!("unknown output {w}")}),
         };
         out.insert(w, v);
